@@ -66,6 +66,10 @@ def pr(t):
         return "(" + pr(t[1]) + ")"
     if k == "qpath":
         return f"<{pr(t[1])} as {t[2]}>::{t[3]}"
+    if k == "lt_":
+        return t[1]
+    if k == "cst_":
+        return pr(t[1])
     if k == "aty":
         return pr(t[1])
     if k == "alt":
